@@ -127,23 +127,26 @@ type txRec struct {
 	Requested bool           // reached some pool through RequestTx
 }
 
+const maxPreps = 20000
+
 // recorder is the event log of one schedule attempt. Only the harness writes to it.
 type recorder struct {
-	mu          sync.Mutex
-	seq         int64
-	phase       atomic.Int32
-	events      []blockEvent
-	commits     []commitRec
-	preps       []prepRec
-	txs         map[util.Uint256]*txRec
-	txOrder     []util.Uint256
-	panics      []string
-	fatals      []string
-	msgTypes    map[string]int64
-	maxView     map[uint32]byte          // per height, highest view seen in any payload
-	commitViews map[uint32]map[byte]bool // per height, the views commits were sent in
-	logs        map[string]int64
-	warns       []string
+	mu            sync.Mutex
+	seq           int64
+	phase         atomic.Int32
+	events        []blockEvent
+	commits       []commitRec
+	preps         []prepRec
+	txs           map[util.Uint256]*txRec
+	txOrder       []util.Uint256
+	panics        []string
+	fatals        []string
+	msgTypes      map[string]int64
+	maxView       map[uint32]byte          // per height, highest view seen in any payload
+	commitViews   map[uint32]map[byte]bool // per height, the views commits were sent in
+	prepsLostFrom uint32                   // lowest height of a prepare request that was not recorded (0 = none)
+	logs          map[string]int64
+	warns         []string
 	// extpool verdicts
 	xpRejects map[string]int64
 }
@@ -533,7 +536,13 @@ func (cl *cluster) observePayload(from int, raw []byte) (string, int) {
 		}
 		rec.commitViews[p.Height()][p.ViewNumber()] = true
 	}
-	if p.Type().String() == "PrepareRequest" {
+	if p.Type().String() == "PrepareRequest" && len(rec.preps) >= maxPreps {
+		// a proposal storm: from this height on the inclusion oracle cannot
+		// tell which proposal became the block
+		if rec.prepsLostFrom == 0 || p.Height() < rec.prepsLostFrom {
+			rec.prepsLostFrom = p.Height()
+		}
+	} else if p.Type().String() == "PrepareRequest" {
 		rec.preps = append(rec.preps, prepRec{Node: from, Validator: int(p.ValidatorIndex()), Height: p.Height(), View: p.ViewNumber(), Txs: slices.Clone(p.GetPrepareRequest().TransactionHashes())})
 	}
 	return p.Type().String(), int(p.ViewNumber())
